@@ -68,6 +68,10 @@ def words_for(rng, fam, kind, nlines):
                     lo[k] = rng.choice([200, -190, 250]) * scale
                 else:
                     la[k] = rng.choice([95, -93]) * scale
+        elif kind == "nearpole":   # a smooth track over the pole: the nadir tie point lies within 0.01 degree of the pole (or on it)
+            lo = [int(round((-60.0 if k < 25 else 120.0) * scale)) for k in range(51)]
+            top = (90.0, 89.995, 89.9999)[i % 3]
+            la = [min(90 * scale, int(round((top - abs(k - 25) * 0.21 - (0.0 if k == 25 else 0.003 * i)) * scale))) for k in range(51)]
         else:       # pole
             lo = [int(round((((-170 + 7.0 * k) + 180) % 360 - 180) * scale)) for k in range(51)]
             la = [int(round((89.9 - abs(k - 25) * 0.05 - 0.001 * i) * scale)) for k in range(51)]
@@ -81,8 +85,8 @@ def part_a(res, rng, tier, seed, coq):
         for fmt, sc, year in (("gac_pod", "noaa11", 1990), ("lac_pod", "noaa14", 1996), ("gac_klm", "noaa16", 2003), ("lac_klm", "noaa18", 2008)):
             fam = l1b.FMT[fmt]["family"]
             scale = 128 if fam == "pod" else 10000
-            for kind in ("extremes", "random", "globe", "dateline", "pole", "onebad"):
-                n = rng.choice([1, 2, 3, 7, 20, 40]) if kind != "onebad" else rng.choice([7, 20])
+            for kind in ("extremes", "random", "globe", "dateline", "pole", "onebad", "nearpole"):
+                n = rng.choice([1, 2, 3, 7, 20, 40]) if kind not in ("onebad", "nearpole") else rng.choice([7, 20])
                 rows = words_for(rng, fam, kind, n)
                 start = datetime.datetime(year, 3, 4, 5, 6, 7)
                 flagged = [rng.random() < 0.15 for _ in range(n)]
@@ -121,7 +125,7 @@ def part_a(res, rng, tier, seed, coq):
                         res.violations.append(("returned %s outside its range" % name, dict(ctx, value=float(arr[bad][0]))))
                 if mask.any() and not (np.isnan(flons[mask]).all() and np.isnan(lons[mask]).all() and np.isnan(lats[mask]).all()):
                     res.violations.append(("coordinates of a flagged line are not NaN", ctx))
-                if kind == "onebad" and flons.shape == (n, width):
+                if kind in ("onebad", "nearpole") and flons.shape == (n, width):
                     # with interpolation on, the in-range tie points of an unflagged line are still reproduced (1e-6 degree),
                     # whatever the other words of the line are
                     cols = TIE_COLS[l1b.FMT[fmt]["res"]]
@@ -130,11 +134,11 @@ def part_a(res, rng, tier, seed, coq):
                             continue
                         badk = [k for k in range(51) if abs(rows[i][0][k]) <= 180 * scale and abs(rows[i][1][k]) <= 90 * scale and (
                             np.isnan(flons[i, cols[k]]) or np.isnan(flats[i, cols[k]])
-                            or abs((float(flons[i, cols[k]]) - rows[i][0][k] / float(scale) + 180) % 360 - 180) > 1e-6
+                            or (abs(rows[i][1][k]) < 89.9 * scale and abs((float(flons[i, cols[k]]) - rows[i][0][k] / float(scale) + 180) % 360 - 180) > 1e-6)
                             or abs(float(flats[i, cols[k]]) - rows[i][1][k] / float(scale)) > 1e-6)]
                         if badk:
                             k = badk[0]
-                            res.violations.append(("with interpolation enabled an in-range tie point of an unflagged line is not reproduced (a neighbouring word is out of range)",
+                            res.violations.append(("with interpolation enabled an in-range tie point of an unflagged line is not reproduced (1e-6 degree)",
                                                    dict(ctx, line_index=i, tie_point=k, tie_points_lost=len(badk), file=[rows[i][0][k] / float(scale), rows[i][1][k] / float(scale)],
                                                         returned=[float(flons[i, cols[k]]), float(flats[i, cols[k]])],
                                                         out_of_range_words=[kk for kk in range(51) if abs(rows[i][0][kk]) > 180 * scale or abs(rows[i][1][kk]) > 90 * scale])))
